@@ -124,6 +124,60 @@ def poolStatus (s : PoolSys) : String :=
   "P pool ctor=" ++ toString s.pool.ctor ++ " dtor=" ++ toString s.pool.dtor ++ " vals=" ++ ",".intercalate vals ++
   " stat=" ++ toString st.allocT ++ "/" ++ toString st.freeT ++ "/" ++ toString st.peakA ++ "/" ++ toString st.peakF ++ " alias=0 leaked=" ++ toString s.pool.leaked
 
+/-- `A h v` … `a` = an alloc whose constructor makes the calls in between; `F h` … `f` = a free whose
+destructor does; must be well nested, depth ≤ 16 -/
+def parseEvs : List String → List Bool → Nat → Option (List PEv)
+  | [], [], _ => some []
+  | [], _ :: _, _ => none
+  | "A" :: h :: v :: rest, st, fuel => do
+      if st.length ≥ 16 then none
+      let h ← nat? h nPoolSlots
+      let v ← nat? v maxVal
+      let r ← parseEvs rest (true :: st) fuel
+      pure (.abeg h v :: r)
+  | "F" :: h :: rest, st, fuel => do
+      if st.length ≥ 16 then none
+      let h ← nat? h nPoolSlots
+      let r ← parseEvs rest (false :: st) fuel
+      pure (.fbeg h :: r)
+  | "a" :: rest, true :: st, fuel => do pure (.aend :: (← parseEvs rest st fuel))
+  | "f" :: rest, false :: st, fuel => do pure (.fend :: (← parseEvs rest st fuel))
+  | _, _, _ => none
+
+/-- branch tags of one event in state `s` -/
+def evTag (s : PoolSys) : PEv → List String
+  | .abeg h _ =>
+      if s.skip > 0 then ["pool-skipped"] else
+      match s.slots[h]? with
+      | some none =>
+          if s.reserved h then ["pool-skip-reserved"] else
+          (match s.stack with
+            | .allocF _ _ _ :: _ => if s.pool.parked.isEmpty then ["pool-ctor-alloc-malloc"] else ["pool-ctor-alloc-parked"]
+            | .freeF _ _ :: _ => if s.pool.parked.isEmpty then ["pool-dtor-alloc-malloc"] else ["pool-dtor-alloc-parked"]
+            | [] => [if s.pool.parked.isEmpty then "pool-malloc" else "pool-reuse"])
+      | _ => ["pool-skip-busy"]
+  | .fbeg h =>
+      if s.skip > 0 then ["pool-skipped"] else
+      match s.slots[h]? with
+      | some (some _) => (match s.stack with
+            | .allocF _ _ _ :: _ => ["pool-ctor-free"]
+            | .freeF _ _ :: _ => ["pool-dtor-free"]
+            | [] => [])
+      | _ => ["pool-skip-none"]
+  | .fend =>
+      if s.skip > 0 then [] else
+      match s.stack with
+      | .freeF _ _ :: _ => [if s.pool.freeNum < s.pool.keep then "pool-park" else "pool-release"]
+      | _ => []
+  | .aend => []
+
+def runEvsTags (s : PoolSys) : List PEv → PoolSys × List String
+  | [] => (s, [])
+  | e :: es =>
+      let t := evTag s e
+      let r := runEvsTags (s.ev e).1 es
+      (r.1, t ++ r.2)
+
 def poolLine (s : St) (ws : List String) : Option (St × List String) :=
   match ws with
   | ["alloc", h, v] => do
@@ -131,25 +185,28 @@ def poolLine (s : St) (ws : List String) : Option (St × List String) :=
       let v ← nat? v maxVal
       match s.pool.slots[h]? with
       | some none =>
-          let tag := if s.pool.pool.parked.isEmpty then "pool-malloc" else "pool-reuse"
-          let (p, _) := s.pool.step (.alloc h v)
-          pure ({ s with pool := p }, ["B " ++ tag, poolStatus p])
+          let (p, tags) := runEvsTags s.pool [.abeg h v, .aend]
+          pure ({ s with pool := p }, ["B " ++ " ".intercalate tags, poolStatus p])
       | _ => pure (s, ["B pool-busy", "P busy"])
   | ["free", h] => do
       let h ← nat? h nPoolSlots
       match s.pool.slots[h]? with
       | some (some _) =>
-          let tag := if s.pool.pool.freeNum < s.pool.pool.keep then "pool-park" else "pool-release"
-          let (p, _) := s.pool.step (.free h)
-          pure ({ s with pool := p }, ["B " ++ tag, poolStatus p])
+          let (p, tags) := runEvsTags s.pool [.fbeg h, .fend]
+          pure ({ s with pool := p }, ["B " ++ " ".intercalate tags, poolStatus p])
       | _ => pure (s, ["B pool-none", "P none"])
+  | "x" :: toks => do
+      if toks.length > 400 then none
+      let evs ← parseEvs toks [] 0
+      let (p, tags) := runEvsTags s.pool evs
+      pure ({ s with pool := p }, ["B pool-x " ++ " ".intercalate tags, poolStatus p])
   | ["new", k] => do
       let k ← if k == "max" then some sizeMax else nat? k 100000
-      let (p, _) := s.pool.step (.renew k)
+      let p := s.pool.step (.renew k)
       pure ({ s with pool := p }, ["B pool-new", poolStatus p])
   | ["drop", k] => do
       let k ← if k == "max" then some sizeMax else nat? k 100000
-      let (p, _) := s.pool.step (.drop k)
+      let p := s.pool.step (.drop k)
       pure ({ s with pool := p }, [if s.pool.liveBlocks.isEmpty then "B pool-drop-empty" else "B pool-drop-live", poolStatus p])
   | ["stat"] => some (s, [poolStatus s.pool])
   | _ => none
